@@ -4,14 +4,14 @@
 N=${1:-4}
 cd /verif
 for i in $(seq 0 $((N-1))); do
-  wt=/tmp/wt-reg$i
+  wt=/tmp/wt-reg$$-$i
   git -C /repo worktree remove --force $wt 2>/dev/null
   git -C /repo worktree add --detach $wt HEAD -q || exit 3
-  ( REPO=$wt SHARD=$i/$N ./check_seeds.sh > /tmp/regress.seeds.$i 2>&1; REPO=$wt SHARD=$i/$N ./check_neutral.sh > /tmp/regress.neutral.$i 2>&1 ) &
+  ( REPO=$wt SHARD=$i/$N ./check_seeds.sh > /tmp/regress$$.seeds.$i 2>&1; REPO=$wt SHARD=$i/$N ./check_neutral.sh > /tmp/regress$$.neutral.$i 2>&1 ) &
 done
 wait
-for i in $(seq 0 $((N-1))); do git -C /repo worktree remove --force /tmp/wt-reg$i; done
-echo "seeds: caught $(cat /tmp/regress.seeds.* | grep -c '^caught')  neutral: silent $(cat /tmp/regress.neutral.* | grep -c '^silent')"
-cat /tmp/regress.seeds.* | grep -v '^caught'
-cat /tmp/regress.neutral.* | grep -v '^silent'
-rm -f /tmp/regress.seeds.* /tmp/regress.neutral.*
+for i in $(seq 0 $((N-1))); do git -C /repo worktree remove --force /tmp/wt-reg$$-$i; done
+echo "seeds: caught $(cat /tmp/regress$$.seeds.* | grep -c '^caught')  neutral: silent $(cat /tmp/regress$$.neutral.* | grep -c '^silent')"
+cat /tmp/regress$$.seeds.* | grep -v '^caught'
+cat /tmp/regress$$.neutral.* | grep -v '^silent'
+rm -f /tmp/regress$$.seeds.* /tmp/regress$$.neutral.*
